@@ -141,6 +141,50 @@ Definition c06m_mismatch (k : c06mcase) : option nat := abs_mismatch (c6m_k k).
 Definition c06m_transmitted (k : c06mcase) : nat :=
   length (filter (fun p => negb (is_nilb (snd p))) (raws_and_msgs (ac_events (c6m_k k)) (ac_obs (c6m_k k)))).
 
+(* C06 with the same axis code on several sub-handlers of one device (as on the PS4 controller: stick and touchpad both report
+   ABS_X): every sub-handler has its own configuration and its own controllers, so what the receiver holds for one handler
+   must not depend on what another handler last reported. *)
+Record c06hcase := { c6h_gs : list (N * c06cfg); c6h_k : acase }.
+
+Fixpoint c06h_scan (gs : list (N * c06cfg)) (lasts : list (N * msg)) (h : list fev) (obs : list ostep) (i : nat) : list nat :=
+  match h, obs with
+  | e :: r, o :: os =>
+      match e with
+      | FAbs sub _ raw =>
+          match get N.eqb sub gs with
+          | None => c06h_scan gs lasts r os (S i)
+          | Some g =>
+              let ms := o_midi o in
+              let ok := match ms, get N.eqb sub lasts with
+                        | [], Some m => c06_event_ok g raw [m]
+                        | _, _ => c06_event_ok g raw ms
+                        end in
+              let lasts' := match ms with m :: _ => set N.eqb sub m lasts | [] => lasts end in
+              (if ok then [] else [i]) ++ c06h_scan gs lasts' r os (S i)
+          end
+      | _ => c06h_scan gs lasts r os (S i)
+      end
+  | _, _ => []
+  end.
+
+Fixpoint c06h_collect (s : N) (h : list fev) (obs : list ostep) : list (Z * list msg) :=
+  match h, obs with
+  | e :: r, o :: os =>
+      match e with
+      | FAbs sub _ raw => (if sub =? s then [(raw, o_midi o)] else []) ++ c06h_collect s r os
+      | _ => c06h_collect s r os
+      end
+  | _, _ => []
+  end.
+
+Definition c06h_failures (k : c06hcase) : list nat :=
+  let h := ac_events (c6h_k k) in let obs := ac_obs (c6h_k k) in
+  c06h_scan (c6h_gs k) [] h obs 0 ++
+  (if forallb (fun sg => c06_monotone (snd sg) (c06h_collect (fst sg) h obs)) (c6h_gs k) then [] else [length h]).
+Definition c06h_mismatch (k : c06hcase) : option nat := abs_mismatch (c6h_k k).
+Definition c06h_transmitted (k : c06hcase) : nat :=
+  length (filter (fun p => negb (is_nilb (snd p))) (raws_and_msgs (ac_events (c6h_k k)) (ac_obs (c6h_k k)))).
+
 (* ====================================================================== C07: bidirectional controllers at the receiver *)
 (* pairs: ((cc, ch), (ccneg, chneg)) of every bidirectional axis of the case *)
 Definition c07_pairs := list (pair * pair).
